@@ -150,6 +150,23 @@ def gen_pairs(ctx):
             costs = [('Total Capital Cost', 80), ('Total O&M Cost', 3), ('Electricity Rate', 0.07)]
             pairs.append(('price', {'econ': int(d['Economic Model']), 'enduse': eu, 'plant': pl, 'life': int(d['Plant Lifetime']), 'delta': dlt,
                                     'carbon': True}, with_(cfg, costs + pa), with_(cfg, costs + pb)))
+    # the product's own escalation rate raised (prices rise from the escalation start year towards a distant ending price)
+    for (eu, pl) in ((1, 1), (2, 9), (2, 5), (2, 6), (32, 2)):
+        for _ in range(ctx.n(1, 4)):
+            cfg = [(k2, v) for k2, v in base_config(rnd, enduse=eu, plant=pl, life=rnd.choice([3, 10, 20]), cy=rnd.choice([1, 2]))
+                   if 'Sale Price' not in k2 and 'Escalation' not in k2]
+            pa, pb = [], []
+            for prod, s0 in (('Electricity', 0.055), ('Heat', 0.025), ('Cooling', 0.025)):
+                common = [(f'Starting {prod} Sale Price', s0), (f'Ending {prod} Sale Price', round(s0 + 0.5, 3)),
+                          (f'{prod} Escalation Start Year', rnd.choice([0, 1]))]
+                r0 = configs.dec(rnd, 0, 0.004, 4)
+                own = prod in ({1: ('Electricity',), 2: (('Cooling',) if pl == 5 else ('Heat',))}.get(eu, ('Electricity', 'Heat')))
+                pa += common + [(f'{prod} Escalation Rate Per Year', r0)]
+                pb += common + [(f'{prod} Escalation Rate Per Year', round(float(r0) + 0.003, 4) if own else r0)]   # only what is sold
+            d = dict(cfg)
+            costs = [('Total Capital Cost', 80), ('Total O&M Cost', 3), ('Electricity Rate', 0.07)]
+            pairs.append(('price', {'econ': int(d['Economic Model']), 'enduse': eu, 'plant': pl, 'life': int(d['Plant Lifetime']), 'delta': 0.003,
+                                    'what': 'escalation rate'}, with_(cfg, costs + pa), with_(cfg, costs + pb)))
     for j in range(ctx.n(6, 60)):    # zero add-on; with more than one construction year the add-on report writer of the pinned tree
         # aborts after Calculate (finding of C09), so these pairs are judged on the post-Calculate snapshot
         eu = rnd.choice(configs.ENDUSES)
